@@ -241,10 +241,17 @@ type scriptPlugin struct {
 	sc    *scripts
 	tr    *tracer
 	ptr   bool
+	sec   bool
 }
 
 func (p *scriptPlugin) Name() string { return p.name }
 func (p *scriptPlugin) ValidateReq(req any) error {
+	if p.sec {
+		if _, ok := req.(SecReq); !ok {
+			return fmt.Errorf("bad request type %T", req)
+		}
+		return nil
+	}
 	if p.ptr {
 		if _, ok := req.(*PReq); !ok {
 			return fmt.Errorf("bad request type %T", req)
@@ -257,6 +264,9 @@ func (p *scriptPlugin) ValidateReq(req any) error {
 	return nil
 }
 func (p *scriptPlugin) Request() any {
+	if p.sec {
+		return SecReq{}
+	}
 	if p.ptr {
 		return &PReq{}
 	}
@@ -484,6 +494,8 @@ func newRegistry(tr *tracer, sc *scripts) *registry.Register {
 	reg.MustRegister(&scriptPlugin{name: "chk", check: true, sc: sc, tr: tr})
 	reg.MustRegister(&scriptPlugin{name: "pact", check: false, sc: sc, tr: tr, ptr: true})
 	reg.MustRegister(&scriptPlugin{name: "pchk", check: true, sc: sc, tr: tr, ptr: true})
+	reg.MustRegister(&scriptPlugin{name: "sact", check: false, sc: sc, tr: tr, sec: true})
+	reg.MustRegister(&scriptPlugin{name: "schk", check: true, sc: sc, tr: tr, sec: true})
 	return reg
 }
 
